@@ -3,7 +3,26 @@ use rs_store::BackpressurePolicy;
 use std::collections::HashMap;
 
 pub type Aid = u32;
-pub type State = Vec<(u32, u32)>;
+/// the store's state: the log of (reducer id, action id) applications. `Clone` is user code; a
+/// scenario may make it slow (`free slowclone <ns>`), which widens the windows in which the
+/// store holds its state lock
+#[derive(Debug, PartialEq, Eq, Default)]
+pub struct State(pub Vec<(u32, u32)>);
+
+pub static SLOW_CLONE_NS: std::sync::atomic::AtomicU64 = std::sync::atomic::AtomicU64::new(0);
+
+impl Clone for State {
+    fn clone(&self) -> Self {
+        let ns = SLOW_CLONE_NS.load(std::sync::atomic::Ordering::Relaxed);
+        if ns > 0 {
+            let t0 = std::time::Instant::now();
+            while (t0.elapsed().as_nanos() as u64) < ns {
+                std::hint::spin_loop();
+            }
+        }
+        State(self.0.clone())
+    }
+}
 
 #[derive(Clone, Copy, Debug, PartialEq, Eq)]
 pub enum Entry {
@@ -196,10 +215,10 @@ fn eff_of(w: &[&str]) -> EffSpec {
 }
 
 pub fn state_text(s: &State) -> String {
-    if s.is_empty() {
+    if s.0.is_empty() {
         "-".to_string()
     } else {
-        s.iter().map(|(j, a)| format!("{}.{}", j, a)).collect::<Vec<_>>().join(",")
+        s.0.iter().map(|(j, a)| format!("{}.{}", j, a)).collect::<Vec<_>>().join(",")
     }
 }
 
